@@ -7,7 +7,7 @@ CONSTANTS
   Admissible <- MCAdmissible
   MaxVariants = 2
   MaxFields = 3
-  TypeClasses = {"T", "U", "WrapT", "PhantomT", "PairTU", "conc"}
+  TypeClasses = {"T", "U", "WrapT", "PhantomT", "PairTU", "conc", "ArrT", "Arr0T"}
   TraitSetsC11 <- Sets
   Vals = {0, 1}
 INVARIANTS UnconstrainedWhenUnused CompanionsAgree AllYesApplies
